@@ -9,7 +9,9 @@
 
   `BTreeMap` / `HashMap` are association lists (`AMap`), iterated in list order; `HashMap` entry updates are
   `upsert`. Every quantity is an `Int`; the machine types show up as explicit range checks whose failure is
-  `err` (the `NegativeValue`-class error the caller passes down) or `panic` (dev-profile overflow, `unwrap`).
+  `err` (the `NegativeValue`-class error the caller passes down). After the C33 `fix:` commits no arithmetic of
+  these functions can panic any more; `R.panic` / `Res.panic` stay as constructors and `Props/C33.lean` proves them
+  unreachable.
   Transactions have no certificates, withdrawals, treasury or donation (the Shelley-MA deposit / refund terms are
   the `Coin(0)` additions the code still performs). UTxO look-ups succeed (the stream only builds such cases).
 -/
@@ -90,8 +92,8 @@ def coerceToI64 (m : MA) : R MA := (checkAll (fun a => if a > I64_MAX then .err 
 /-- `coerce_to_coin`: `u64::try_from(amount).map_err(err)` -/
 def coerceToCoin (m : MA) : R MA := (checkAll (fun a => if a < 0 then .err else .ok ()) m).map (fun _ => m)
 
-/-- `old + new` on `i64` -/
-def addI64 (a b : Int) : R Int := if a + b > I64_MAX ∨ a + b < I64_MIN then .panic else .ok (a + b)
+/-- `old.checked_add(new)` on `i64`; `None` becomes the caller's `err` (C33 `fix:`; it was an overflow panic) -/
+def addI64 (a b : Int) : R Int := if a + b > I64_MAX ∨ a + b < I64_MIN then .err else .ok (a + b)
 
 /-- `add_multiasset_values` -/
 def addMultiassetValues (a b : MA) : R MA :=
@@ -214,11 +216,11 @@ def checkPreservationShelleyMA (shelley : Bool) (ins outs : List Value) (fee : I
 
 /-! ## Conway (`PositiveCoin` quantities, `NonZeroInt` mint) -/
 
-/-- `*old + *new` on `u64` -/
-def addU64 (a b : Int) : R Int := if a + b > U64_MAX then .panic else .ok (a + b)
+/-- `old.checked_add(new)` on `u64`; `None` becomes the caller's `err` -/
+def addU64 (a b : Int) : R Int := if a + b > U64_MAX then .err else .ok (a + b)
 
-/-- `conway_coerce_to_coin`: `PositiveCoin::try_from(amount).unwrap()` -/
-def conwayCoerceToCoin (m : MA) : R MA := (checkAll (fun a => if a = 0 then .panic else .ok ()) m).map (fun _ => m)
+/-- `conway_coerce_to_coin`: `PositiveCoin::try_from(amount).map_err(err)` -/
+def conwayCoerceToCoin (m : MA) : R MA := (checkAll (fun a => if a = 0 then .err else .ok ()) m).map (fun _ => m)
 
 /-- `conway_add_multiasset_values` (on `coerce_to_u64` of both sides, which changes nothing) -/
 def conwayAddMultiassetValues (a b : MA) : R MA :=
@@ -300,15 +302,15 @@ def sumU64 (acc : Int) : List Int → Option Int
 /-- `onlyRedeem` = every input is a redeem-address UTxO -/
 def byronCheckFees (ins outs : List Int) (size summand multiplier : Int) (onlyRedeem : Bool) : Res :=
   match sumU64 0 ins with
-  | none => .panic
+  | none => .other                                                    -- `checked_add(..).ok_or(UnableToComputeFees)`
   | some inputsBalance =>
     match sumU64 0 outs with
-    | none => .panic
+    | none => .other
     | some outputsBalance =>
       if inputsBalance - outputsBalance < 0 then .feesBelowMin          -- `checked_sub(..).ok_or(FeesBelowMin)`
       else if onlyRedeem then .ok
-      else if multiplier * size > U64_MAX then .panic
-      else if summand + multiplier * size > U64_MAX then .panic
+      else if multiplier * size > U64_MAX then .other                   -- `checked_mul` / `checked_add` of the minimum fee
+      else if summand + multiplier * size > U64_MAX then .other
       else if inputsBalance - outputsBalance < summand + multiplier * size then .feesBelowMin
       else .ok
 
